@@ -534,6 +534,33 @@ def replay_C16(ctx):
     return check_C16(ctx)
 
 
+def diverge_classify(pid):
+    def classify(name, fields, run):
+        fam = run["family"]
+        return ("%s:%s:%s" % (pid, fam, fields[1][:60]), "%s (faults %s): %s" % (fam, run["faults"], fields[1]))
+    return classify
+
+
+def check_C04(ctx):
+    base = diverge_classify("C04")
+    def classify(name, fields, run):
+        if name == "diverge_bad" and not run["family"].startswith("inbox:"):
+            return (None, None)
+        return base(name, fields, run)
+    return pub_property(ctx, "C04", "Properties/C04.v",
+                        ["Pub/Fed.v (every default callback, post_inbox), Pub/Util.v add / remove, Pub/EffectSpec.v, Pub/Monitors.v own_step / eff_step",
+                         "the judge 'diverge' reports a run on which the implementation's stored values, deliveries, callbacks or response differ from the model's, whose effects the theorems characterise",
+                         "modelled, not verified: the fetch of an object given by IRI is the recorded Transport.Dereference answer decoded by the model's to_type"],
+                        {"monitors": ["fed_bad", "diverge_bad"], "classify": classify,
+                         "rule": "each handled activity type with 1..3 objects / targets / actors as IRIs or embedded values, owned or not, ordered / unordered collections, absent or present likes / shares, OnFollow in {nothing, accept, reject}, no / wrapped / overriding application callback; every single fault; own_step / eff_step / quiet predicates evaluated on the callback segment of each real trace"},
+                        family_filter=lambda f: f.startswith("inbox:"),
+                        run_specs=[("inboxwide", ["-families", "inbox", "-n", "12" if ctx.tier == "quick" else "200", "-faults", "none", "-maxruns", "20000"]), ("std", PUB_STD[ctx.tier])])
+
+
+def replay_C04(ctx):
+    return check_C04(ctx)
+
+
 def check_C03(ctx):
     def classify(name, fields, run):
         return ("C03:%s:%s" % (run["family"].split(":")[0], "payload" if "payload" in fields[1] else "body"), "%s (faults %s): %s" % (run["family"], run["faults"], fields[1]))
